@@ -13,6 +13,7 @@ func ensures(args ...any)                  {}
 func invariant(args ...any)                {}
 func decreases(args ...any)                {}
 func modifies(args ...any)                 {}
+func touches(args ...any)                  {}
 func assumes(args ...any)                  {}
 func asserts(args ...any)                  {}
 func flag(name string)                     {}
